@@ -98,6 +98,8 @@ def kind_name(ty):
     t = strip_opt_(ty)
     if t[0] in ("ref", "list", "dict", "set", "class"):
         return "Ref"
+    if t[0] == "tuple":
+        return "Tup"
     return str(sort_of(t))
 
 
@@ -332,6 +334,10 @@ class State:
         s.labels = list(self.labels)
         return s
 
+    def peek_env(self):
+        """like peek(), keeping the local environment (for invariants that mention locals)"""
+        return self.peek()
+
     def peek(self):
         """copy for evaluating specification expressions: no obligations are generated"""
         s = self.copy(); s.quiet = True; s.obl = []
@@ -342,9 +348,13 @@ class State:
         if self.quiet:
             return
         ctx = "/".join(self.labels)
+        if isinstance(goal, bool):
+            goal = z3.BoolVal(goal)
         self.obl.append({"name": (ctx + "/" if ctx else "") + name, "pc": list(self.pc), "goal": goal, "kind": kind})
 
     def assume(self, c):
+        if isinstance(c, bool):
+            c = z3.BoolVal(c)
         self.pc.append(c)
 
     # ---- heap arrays
